@@ -172,17 +172,41 @@ class LayoutCtx:
             d.G_virt = self.dd.G_virt[:, subset]
         return d
 
-    def route(self, meta):
-        """gain matrix (all output channels x pack channels) observed through HOARenderer.render on unit impulses"""
+    def render(self, meta, samples):
+        """HOARenderer.render of a block of input samples (rows = samples, columns = the pack's channels)"""
         from ear.core.metadata_input import DirectTrackSpec, HOARenderingItem, MetadataSourceIter
 
         C = len(meta.orders)
         self.renderer.set_rendering_items(
             [HOARenderingItem(track_specs=[DirectTrackSpec(i) for i in range(C)], metadata_source=MetadataSourceIter([meta]))]
         )
-        out = self.renderer.render(48000, 0, np.eye(C))
-        self.renderer.set_rendering_items([])
-        return out.T
+        try:
+            return self.renderer.render(48000, 0, np.asarray(samples, dtype=float))
+        finally:
+            self.renderer.set_rendering_items([])
+
+    def route(self, meta):
+        """gain matrix (all output channels x pack channels) observed through HOARenderer.render on unit impulses"""
+        return self.render(meta, np.eye(len(meta.orders))).T
+
+
+def zero_patterns(rng, chans):
+    """gain vectors with EXACT zeros next to non-zero gains: one channel, several channels, and every channel above
+    some order (what mute_hoa_channels_by_importance produces)"""
+    C = len(chans)
+    g = lambda: rng.choice([1.0, rng.uniform(0.2, 2.0), -rng.uniform(0.2, 2.0)])
+    pats = []
+    if C >= 2:
+        z = rng.randrange(C)
+        pats.append(("one-zero", [0.0 if i == z else g() for i in range(C)]))
+        zs = set(rng.sample(range(C), rng.randint(1, C - 1)))
+        pats.append(("some-zero", [0.0 if i in zs else g() for i in range(C)]))
+    N = max(c[0] for c in chans)
+    lower = sorted({c[0] for c in chans if c[0] < N})
+    if lower:
+        k = rng.choice(lower)
+        pats.append(("orders-above-%d-zero" % k, [0.0 if c[0] > k else g() for c in chans]))
+    return pats
 
 
 DEFAULT_OPTS = dict(nmp=True, maxRE=False, scale="none")
@@ -515,6 +539,10 @@ class C11(Spec):
                 ctx.count("excluded:maxRE scale=order on an order-0 pack")
                 continue
             gains = [ctx.rng.choice([1.0, 0.0, -1.0, ctx.rng.uniform(-2, 2)]) for _ in lst]
+            pats = zero_patterns(ctx.rng, lst)
+            if pats and ctx.rng.random() < 0.3:
+                gains = ctx.rng.choice(pats)[1]
+            ctx.count("design:gains:" + ("with exact zeros" if any(x == 0.0 for x in gains) and any(x != 0.0 for x in gains) else "all zero" if not any(gains) else "non-zero"))
             og = ctx.rng.choice([1.0, ctx.rng.uniform(0.0, 2.0)])
             mute = ctx.rng.random() < 0.1
             out.append((conv, N, kind, lst, opts, gains, og, mute))
@@ -558,15 +586,29 @@ class C11(Spec):
                 ctx.disagree("design no longer builds Y_virt with sph_harm(norm=norm_N3D)", self._inp(lc, conv, lst, opts, gains, og, mute), "Y_virt", [c[0].__name__ for c in calls])
                 continue
             Y = calls[0][1]
+            inp_c = self._inp(lc, conv, lst, opts, gains, og, mute)
+            if Y.shape != (len(lst), d.G_virt.shape[1]):
+                ctx.disagree("Y_virt built by design does not have one row per channel of the pack", inp_c,
+                             "shape %s" % ((len(lst), d.G_virt.shape[1]),), "shape %s" % (Y.shape,))
+                continue
+            if np.shape(D) != (d.G_virt.shape[0], len(lst)):
+                ctx.disagree("decoder shape", inp_c, "shape %s" % ((d.G_virt.shape[0], len(lst)),), "shape %s" % (np.shape(D),))
+                continue
             ok, nn = guarded(ctx, "hoa.norm_N3D / hoa.norm_%s" % conv, self._inp(lc, conv, lst, opts, gains, og, mute),
                              lambda: (hoa.norm_N3D(n, np.abs(m)), np.asarray(real_norm(conv, lst), dtype=float)))
             if not ok:
                 continue
             nN3D, nrm = nn
+            if np.shape(nN3D) != (len(lst),) or np.shape(nrm) != (len(lst),):
+                ctx.disagree("norm vector shape", inp_c, "(%d,)" % len(lst), "%s %s" % (np.shape(nN3D), np.shape(nrm)))
+                continue
             if opts["nmp"] and len(calls) >= 2:
                 K = calls[1][1]
                 with np.errstate(all="ignore"):
                     Kmodel = (nrm / nN3D)[:, None] * Y
+                if K.shape != Kmodel.shape:
+                    ctx.disagree("K_v shape", inp_c, "shape %s" % (Kmodel.shape,), "shape %s" % (K.shape,))
+                    continue
                 if not close(K, Kmodel, 1e-12):
                     ctx.disagree("K_v = diag(nrm/nN3D)·Y_virt", self._inp(lc, conv, lst, opts, gains, og, mute), "diag(nrm/nN3D)·Y", "differs by %g" % maxdiff(K, Kmodel))
             coef = hoa.ApproxMaxRECoefficients(int(max(n))) if opts["maxRE"] else np.array([1.0])
@@ -737,6 +779,33 @@ class C11(Spec):
                             if not close(Dg, base * np.array(gains) * og):
                                 ctx.hit("decoder is not linear in gains / object gain", self._inp(lc, conv, chans, opts, gains, og, False),
                                         {"max abs diff": maxdiff(Dg, base * np.array(gains) * og)}, ["linearity"])
+                            # exact zeros among non-zero gains (a channel muted by gain / importance): still D(1)·g
+                            pats = zero_patterns(rng, chans)
+                            if pats and not deep:
+                                self._zp = getattr(self, "_zp", 0) + 1
+                                pats = [pats[self._zp % len(pats)]]
+                            for pname, gz in pats:
+                                inpz = self._inp(lc, conv, chans, opts, gz, 1.0, False)
+                                ctx.count("search:zero-gains:" + pname.split("-")[0])
+                                ok, Dz = guarded(ctx, "HOADecoderDesign.design", inpz, real_design, d, make_meta(chans, conv, gz))
+                                if not ok:
+                                    continue
+                                ctx.case(("search-zero", lc.name, conv, tuple(chans), opts_key(opts), tuple(gz)), True)
+                                if Dz.shape != base.shape or not close(Dz, base * np.array(gz)):
+                                    ctx.hit("decoder for gains containing exact zeros is not the unit-gain decoder times the gains", inpz,
+                                            {"max abs diff": maxdiff(Dz, base * np.array(gz)) if Dz.shape == base.shape else "shape %s" % (Dz.shape,),
+                                             "row0": Dz[0].tolist(), "expected row0": (base * np.array(gz))[0].tolist()}, ["linearity", "zero-gain"])
+                                if default and (deep or (kind == "full" and conv == "SN3D")):
+                                    # rendering with a zero-gain channel == rendering with that channel's samples zeroed
+                                    X = np.array([[rng.uniform(-1, 1) for _ in chans] for _ in range(4)])
+                                    gnz = [x if x != 0.0 else 1.0 for x in gz]
+                                    Xz = X * (np.array(gz) != 0.0)
+                                    ctx.count("search:zero-gain-render")
+                                    ok, outs = guarded(ctx, "HOARenderer.render", inpz,
+                                                       lambda: (lc.render(make_meta(chans, conv, gz), X), lc.render(make_meta(chans, conv, gnz), Xz)))
+                                    if ok and not close(outs[0], outs[1]):
+                                        ctx.hit("rendering with zero-gain channels differs from rendering with those channels' samples zeroed",
+                                                dict(inpz, input_samples=X.tolist()), {"max abs diff": maxdiff(outs[0], outs[1])}, ["linearity", "zero-gain", "render"])
                             if deep or kind == "full":
                                 ok, Dm = guarded(ctx, "HOADecoderDesign.design", self._inp(lc, conv, chans, opts, gains, og, True),
                                                  real_design, d, make_meta(chans, conv, gains, og, True))
